@@ -608,10 +608,11 @@ theorem decode_sound (s b : Bytes) (max : Nat) (h : Model.decodeBase58 s max = s
     · simp at h
 
 theorem check_decode_encode (hash : Bytes → Bytes) (hlen : ∀ m, 4 ≤ (hash m).length) (p : Bytes) (max : Nat)
-    (h : p.length ≤ max) : Model.decodeBase58Check hash (Model.encodeBase58Check hash p) max = some p := by
+    (h : p.length ≤ max) (hint : p.length + 4 ≤ 2147483647) :
+    Model.decodeBase58Check hash (Model.encodeBase58Check hash p) max = some p := by
   unfold Model.decodeBase58Check Model.encodeBase58Check
   have hck : ((hash p).take 4).length = 4 := by simp [List.length_take]; have := hlen p; omega
-  rw [decode_encode _ _ (by simp [List.length_append, hck]; omega)]
+  rw [decode_encode _ _ (by simp only [List.length_append, hck]; split <;> omega)]
   simp only [List.length_append, hck]
   have e1 : p.length + 4 - 4 = p.length := by omega
   rw [e1, List.take_left', List.drop_left']
@@ -623,7 +624,8 @@ theorem check_decode_sound (hash : Bytes → Bytes) (s p : Bytes) (max : Nat)
     (h : Model.decodeBase58Check hash s max = some p) :
     Model.encodeBase58Check hash p = core s ∧ p.length ≤ max := by
   unfold Model.decodeBase58Check at h
-  cases hd : Model.decodeBase58 s (max + 4) with
+  generalize hin : (if max > 2147483647 - 4 then 2147483647 else max + 4) = inner at h
+  cases hd : Model.decodeBase58 s inner with
   | none => simp [hd] at h
   | some vch =>
     rw [hd] at h
@@ -636,13 +638,14 @@ theorem check_decode_sound (hash : Bytes → Bytes) (s p : Bytes) (max : Nat)
       · rename_i hck
         simp at h
         subst h
-        obtain ⟨e1, e2⟩ := decode_sound s vch (max + 4) hd
+        obtain ⟨e1, e2⟩ := decode_sound s vch inner hd
         have hv : vch = vch.take (vch.length - 4) ++ (hash (vch.take (vch.length - 4))).take 4 := by
           have : (hash (vch.take (vch.length - 4))).take 4 = vch.drop (vch.length - 4) := by simpa using hck
           rw [this, List.take_append_drop]
         unfold Model.encodeBase58Check
         rw [← hv]
         refine ⟨e1, ?_⟩
-        simp [List.length_take]; omega
+        simp only [List.length_take]
+        split at hin <;> omega
 
 end Btcdeb.Base58
